@@ -32,14 +32,14 @@ pub mod layout {
 
     /// instruction header layouts
     #[derive(Copy, Clone, PartialEq, Eq, Debug)]
-    pub enum IFmt { Msg, Anm07, Std06, Std10, Ecl06, Ecl07, Tl06, Tl08 }
+    pub enum IFmt { Msg, Anm07, Std06, Std10, Ecl06, Ecl07, Tl06, Tl08, Ecl10 }
 
     impl IFmt {
         pub fn name(self) -> &'static str {
-            match self { IFmt::Msg => "msg", IFmt::Anm07 => "anm07", IFmt::Std06 => "std06", IFmt::Std10 => "std10", IFmt::Ecl06 => "ecl06", IFmt::Ecl07 => "ecl07", IFmt::Tl06 => "tl06", IFmt::Tl08 => "tl08" }
+            match self { IFmt::Msg => "msg", IFmt::Anm07 => "anm07", IFmt::Std06 => "std06", IFmt::Std10 => "std10", IFmt::Ecl06 => "ecl06", IFmt::Ecl07 => "ecl07", IFmt::Tl06 => "tl06", IFmt::Tl08 => "tl08", IFmt::Ecl10 => "ecl10" }
         }
         pub fn header(self) -> usize {
-            match self { IFmt::Msg => 4, IFmt::Ecl06 | IFmt::Ecl07 => 12, _ => 8 }
+            match self { IFmt::Msg => 4, IFmt::Ecl06 | IFmt::Ecl07 => 12, IFmt::Ecl10 => 16, _ => 8 }
         }
         pub fn has_mask(self) -> bool { matches!(self, IFmt::Anm07 | IFmt::Ecl07) }
     }
@@ -51,7 +51,7 @@ pub mod layout {
     pub struct BinScript { pub fmt: IFmt, pub start: usize, pub instrs: Vec<BinInstr>, /** bytes of instructions, the end marker excluded */ pub len: usize }
 
     #[derive(Clone, Debug, PartialEq, Eq, PartialOrd, Ord)]
-    pub enum Key { Anm(usize), MsgOffset(usize), Std, Sub(usize), Timeline(usize) }
+    pub enum Key { Anm(usize), MsgOffset(usize), Std, Sub(usize), Timeline(usize), Named(String) }
 
     pub struct FileLayout { pub scripts: Vec<(Key, BinScript)>, /** MSG: script offset of every table entry */ pub msg_table: Vec<usize> }
 
@@ -123,6 +123,20 @@ pub mod layout {
                     instrs.push(BinInstr { offset: off, time, opcode, mask: 0, difficulty: 0, blob: b[pos + 8..pos + size as usize].to_vec() });
                     pos += size as usize;
                 },
+                IFmt::Ecl10 => {
+                    // no end marker: the sub runs to the next sub header or the end of the file
+                    let limit = limit.ok_or("stack ECL sub needs a region end")?;
+                    if pos == limit { return Ok(BinScript { fmt, start, instrs, len: off }); }
+                    if pos > limit { return Err(format!("instruction before {pos} crosses the end of the sub at {start}")); }
+                    let time = u32_at(b, pos)? as i32;
+                    let opcode = u16_at(b, pos + 4)?;
+                    let size = u16_at(b, pos + 6)? as usize;
+                    let mask = u16_at(b, pos + 8)?;
+                    let difficulty = u8_at(b, pos + 10)?;
+                    if size < 16 || pos + size > b.len() { return Err(format!("bad instruction size {size} at {pos}")); }
+                    instrs.push(BinInstr { offset: off, time, opcode, mask, difficulty, blob: b[pos + 16..pos + size].to_vec() });
+                    pos += size;
+                },
                 IFmt::Tl08 => {
                     let time = u32_at(b, pos)? as i32;
                     let opcode = u16_at(b, pos + 4)?;
@@ -186,6 +200,29 @@ pub mod layout {
             Format::Std => {
                 let s = u32_at(b, 8)? as usize;
                 scripts.push((Key::Std, walk(b, s, std_ifmt(game), None)?));
+            },
+            Format::Ecl if game >= Game::Th10 => {
+                // SCPT header (0x24 bytes), ANIM and ECLI name lists, sub offsets, sub names; every sub is `ECLH` + 12 bytes + instructions
+                if b.get(0..4) != Some(b"SCPT") { return Err("no SCPT magic".into()); }
+                let include_length = u16_at(b, 6)? as usize;
+                let include_offset = u32_at(b, 8)? as usize;
+                let nsubs = u32_at(b, 16)? as usize;
+                let mut p = include_offset + include_length;
+                let mut offs = vec![];
+                for k in 0..nsubs { offs.push(u32_at(b, p + 4 * k)? as usize); }
+                p += 4 * nsubs;
+                let mut names = vec![];
+                for _ in 0..nsubs {
+                    let mut q = p;
+                    while u8_at(b, q)? != 0 { q += 1; }
+                    names.push(String::from_utf8_lossy(&b[p..q]).to_string());
+                    p = q + 1;
+                }
+                for (k, (&o, name)) in offs.iter().zip(&names).enumerate() {
+                    if b.get(o..o + 4) != Some(b"ECLH") { return Err(format!("no ECLH magic at {o}")); }
+                    let limit = offs.get(k + 1).copied().unwrap_or(b.len());
+                    scripts.push((Key::Named(name.clone()), walk(b, o + 16, IFmt::Ecl10, Some(limit))?));
+                }
             },
             Format::Ecl => {
                 let mut p = 0usize;
@@ -314,6 +351,7 @@ fn key_of_export(e: &serde_json::Value, lay: &layout::FileLayout) -> Result<Key,
         "std-script" => Key::Std,
         "olde-ecl-sub" => Key::Sub(e["index"].as_u64().unwrap_or(u64::MAX) as usize),
         "scl-script" => Key::Timeline(e["index"].as_u64().unwrap_or(u64::MAX) as usize),
+        "named-ecl-sub" => Key::Named(e["name"].as_str().unwrap_or("?").to_string()),
         "msg-script" => {
             let idx: Vec<usize> = e["indices"].as_array().map(|a| a.iter().map(|x| x.as_u64().unwrap_or(u64::MAX) as usize).collect()).unwrap_or_default();
             let mut offs: Vec<usize> = vec![];
@@ -325,6 +363,12 @@ fn key_of_export(e: &serde_json::Value, lay: &layout::FileLayout) -> Result<Key,
             }
             offs.dedup();
             if offs.len() != 1 { return Err(fail("debug-info-script-export-wrong", format!("table entries {idx:?} of one script point at offsets {offs:?}"))); }
+            // ... and these are all the entries of the written table that point at it
+            let pointing: Vec<usize> = lay.msg_table.iter().enumerate().filter(|(_, &o)| o == offs[0]).map(|(k, _)| k).collect();
+            let mut sorted = idx.clone(); sorted.sort(); sorted.dedup();
+            if sorted != pointing || sorted.len() != idx.len() {
+                return Err(fail("debug-info-script-export-wrong", format!("the written script table has the script at offset {} in entries {pointing:?} (of {}), debug info lists indices {idx:?}", offs[0], lay.msg_table.len())));
+            }
             Key::MsgOffset(offs[0])
         },
         _ => return Err(fail("debug-info-script-export-wrong", format!("unknown export type {ty}"))),
@@ -333,7 +377,7 @@ fn key_of_export(e: &serde_json::Value, lay: &layout::FileLayout) -> Result<Key,
 
 fn decode_jump(fmt: IFmt, cur: usize, bits: u32) -> i64 {
     match fmt {
-        IFmt::Ecl06 | IFmt::Ecl07 => cur as i64 + bits as i32 as i64,
+        IFmt::Ecl06 | IFmt::Ecl07 | IFmt::Ecl10 => cur as i64 + bits as i32 as i64,
         IFmt::Std06 => bits as i64 * 20,
         _ => bits as i64,
     }
@@ -864,7 +908,7 @@ impl Prop for C18 {
         "low: (debug-info instruction offsets, labels (name, offset, time), end offset, emitted instructions (time, opcode, argument bytes)) of the real Lowerer — under a TestLanguage with generated signatures, and through the real compiler + written binary of every format with the game's own signatures — == Lean `Offsets.lowerTail` (gather_label_info with dummy substitution, encode_labels, second encoding pass); errors by diagnostic class"
     }
     fn rule(&self) -> &'static str {
-        "low: straight-line streams of 1-10 statements over 1-4 signatures (generated ones incl. strings of every size kind / mask / furibug, jumps, narrow integers; or drawn from the game's table, favouring jumps and strings), labels at the start / between / doubled / at the end, offsetof/timeof arguments in jump, wide and narrow integer positions, @blob calls, absolute time labels, occasional misfits, duplicate and undefined labels; non-trivial = at least one instruction. prog: generated programs of ANM / MSG / ending MSG / STD / old ECL (subs and timelines) of every supported game: string instructions with furigana prefixes, labels at block edges and at the script end, loops, times, if/else, gotos, locals and sub parameters used in marker instructions, expression temporaries, difficulty switches and difficulty labels, const definitions (forward references, chains); debug info written by prepare_and_write_debug_info vs the written binary parsed by an independent layout parser; non-trivial = the program compiled and at least one script has an instruction; distinct by case text"
+        "low: straight-line streams of 1-10 statements over 1-4 signatures (generated ones incl. strings of every size kind / mask / furibug, jumps, narrow integers; or drawn from the game's table, favouring jumps and strings), labels at the start / between / doubled / at the end, offsetof/timeof arguments in jump, wide and narrow integer positions, @blob calls, absolute time labels, occasional misfits, duplicate and undefined labels; non-trivial = at least one instruction. prog: generated programs of ANM / MSG / ending MSG / STD / old ECL (subs and timelines) of every supported game: string instructions with furigana prefixes, labels at block edges and at the script end, loops, times, if/else, gotos, locals and sub parameters used in marker instructions, expression temporaries, difficulty switches and difficulty labels, const definitions (forward references, chains); MSG script tables with gaps, a named `default` entry and an explicit `table_len` (the export indices of every script must be exactly the entries of the written table that point at it); stack ECL (TH10-TH17) subs of raw instructions with per-difficulty string and number arguments (copies of different sizes), labels and offsetof/timeof jumps; debug info written by prepare_and_write_debug_info vs the written binary parsed by an independent layout parser; non-trivial = the program compiled and at least one script has an instruction; distinct by case text"
     }
     fn theorems(&self) -> &'static [&'static str] {
         &["TruthModel.C18.dummy_same_size", "TruthModel.C18.offsets_stable", "TruthModel.C18.label_on_boundary", "TruthModel.C18.end_is_length", "TruthModel.C18.instr_count",
@@ -1216,7 +1260,78 @@ fn prog_case(format: Format, game: Game, maps: Vec<String>, text: String, expect
     c
 }
 
+/// Stack ECL (TH10+): subs of raw instructions; string and number arguments that differ per difficulty (the compiler
+/// writes one copy of the instruction per difficulty group, of different sizes where the strings differ in length),
+/// labels everywhere, jumps by `offsetof` / `timeof`.
+fn gen_prog_ecl10(rng: &mut Rng) -> Case {
+    let game = *rng.pick(&[Game::Th10, Game::Th10, Game::Th11, Game::Th12, Game::Th13, Game::Th14, Game::Th15, Game::Th16, Game::Th17]);
+    // only TH10 has built-in stack ECL signatures; the later games get the same ones from a user mapfile
+    let sigs = gensrc::signatures(Game::Th10, LanguageKey::Ecl);
+    let usable = |sig: &str| gensrc::parse_sig(sig).iter().all(|p| matches!(p.ch, 'S' | 's' | 'f' | 'P' | 'z' | 'm' | 'o' | 't') && (!p.attrs.contains("enum") && !p.attrs.contains("len=")));
+    let strs: Vec<(i32, String)> = sigs.iter().filter(|(_, s)| usable(s) && s.contains(|c| c == 'P' || c == 'z' || c == 'm')).cloned().collect();
+    let plain: Vec<(i32, String)> = sigs.iter().filter(|(_, s)| usable(s) && !s.contains(|c| "Pzmot".contains(c)) && gensrc::parse_sig(s).len() <= 4).cloned().collect();
+    let jumps: Vec<(i32, String)> = sigs.iter().filter(|(_, s)| s.trim() == "ot").cloned().collect();
+    const WORDS: &[&str] = &["", "a", "Girl", "abc", "GirlNormal01", "Boss1Card", "GirlHardVariantA", "GirlLunaticVariantLong00", "\u{3042}", "\u{6771}\u{65b9}x", "0123456789abcdef0123456789abcdef"];
+    let mut tags: Vec<&'static str> = vec!["stack-ecl"];
+    let mut expect = vec![];
+    let mut text = String::new();
+    if rng.chance(1, 2) { text.push_str("meta { anim: [\"enemy.anm\"], ecli: [] }\n"); }
+    let nsubs = 1 + rng.below(3);
+    for si in 0..nsubs {
+        let name = if si == 0 { "main".to_string() } else { format!("Sub{si}") };
+        let nlabels = 1 + rng.below(4);
+        let n = 2 + rng.below(7);
+        let label_at: Vec<usize> = (0..nlabels).map(|_| rng.below(n + 1)).collect();
+        let mut body = String::new();
+        let mut time = 0i64;
+        for k in 0..=n {
+            for (l, &at) in label_at.iter().enumerate() {
+                if at == k { body.push_str(&format!("lab{si}_{l}:\n")); expect.push(Sexp::app("label", vec![Sexp::atom(&name), Sexp::atom(format!("lab{si}_{l}")), Sexp::int(time), Sexp::int(0)])); }
+            }
+            if k == n { break; }
+            if rng.chance(1, 5) { let d = *rng.pick(&[1i64, 10, 60]); time += d; body.push_str(&format!("+{d}:\n")); }
+            let (op, sig) = match rng.below(10) {
+                0..=4 if !strs.is_empty() => rng.pick(&strs).clone(),
+                5 | 6 if !jumps.is_empty() => rng.pick(&jumps).clone(),
+                _ if !plain.is_empty() => rng.pick(&plain).clone(),
+                _ => (10, String::new()),
+            };
+            let target = rng.below(nlabels);
+            let mut switched = false;
+            // all switches of one statement have the same number of cases
+            let stmt_alts = 2 + rng.below(3);
+            let args: Vec<String> = gensrc::parse_sig(&sig).iter().map(|p| {
+                let sw = rng.chance(1, 2);
+                let alts = if sw { stmt_alts } else { 1 };
+                let one = |rng: &mut Rng| match p.ch {
+                    'f' => format!("{}.5", rng.below(40)),
+                    'P' | 'z' | 'm' => format!("\"{}\"", rng.pick(WORDS)),
+                    'o' => format!("offsetof(lab{si}_{target})"),
+                    't' => format!("timeof(lab{si}_{target})"),
+                    _ => format!("{}", rng.below(200)),
+                };
+                if matches!(p.ch, 'o' | 't') || alts == 1 { return one(rng); }
+                switched = true;
+                (0..alts).map(|_| one(rng)).collect::<Vec<_>>().join(" : ")
+            }).collect();
+            if switched { tags.push(if sig.contains(|c| c == 'P' || c == 'z' || c == 'm') { "diff-switch-string" } else { "diff-switch" }); }
+            if sig.trim() == "ot" { tags.push("jump"); }
+            body.push_str(&format!("    ins_{op}({});\n", args.join(", ")));
+        }
+        text.push_str(&format!("void {name}() {{\n{body}}}\n"));
+    }
+    tags.sort(); tags.dedup();
+    let maps = if game == Game::Th10 { vec![] } else {
+        let mut m = String::from("!eclmap\n!ins_signatures\n");
+        for (op, sig) in strs.iter().chain(&plain).chain(&jumps) { m.push_str(&format!("{op} {}\n", sig.trim())); }
+        m.push_str("10 \n");
+        vec![m]
+    };
+    prog_case(Format::Ecl, game, maps, text, expect, &tags)
+}
+
 fn gen_prog(rng: &mut Rng) -> Case {
+    if rng.chance(1, 8) { return gen_prog_ecl10(rng); }
     match rng.below(10) {
         0..=2 => {
             let end = rng.chance(1, 4);
@@ -1229,8 +1344,20 @@ fn gen_prog(rng: &mut Rng) -> Case {
             let nscripts = 1 + g.rng.below(3);
             let mut text = String::from("meta {\n    table: {\n");
             let mut idx = 0;
-            for k in 0..nscripts { idx += g.rng.below(2) + (k > 0) as usize; text.push_str(&format!("        {idx}: {{script: \"script{k}\"}},\n")); if g.rng.chance(1, 4) { idx += 1; text.push_str(&format!("        {idx}: {{script: \"script{k}\"}},\n")); } }
-            text.push_str("    },\n}\n");
+            let mut first_of: Vec<usize> = vec![];
+            for k in 0..nscripts { idx += g.rng.below(2) + (k > 0) as usize; first_of.push(idx); text.push_str(&format!("        {idx}: {{script: \"script{k}\"}},\n")); if g.rng.chance(1, 4) { idx += 1 + g.rng.below(2); text.push_str(&format!("        {idx}: {{script: \"script{k}\"}},\n")); } }
+            // the shapes `trumsg decompile` writes for game files: a named default filling the gaps, an explicit table length
+            // (longer than the explicit entries, or cutting some of them off)
+            if g.rng.chance(1, 3) { let d = g.rng.below(nscripts); text.push_str(&format!("        default: {{script: \"script{d}\"}},\n")); g.tags.push("msg-table-default"); }
+            text.push_str("    },\n");
+            if g.rng.chance(1, 4) {
+                // every script keeps an entry (a script without one is written but not described, and the independent
+                // layout parser cannot tell where its neighbour ends)
+                let min_len = first_of.iter().max().copied().unwrap_or(0) + 1;
+                let len = if g.rng.chance(1, 3) && idx + 1 > min_len { min_len + g.rng.below(idx + 1 - min_len) } else { idx + 1 + g.rng.below(4) };
+                text.push_str(&format!("    table_len: {len},\n")); g.tags.push("msg-table-len");
+            }
+            text.push_str("}\n");
             text.push_str(&consts);
             for k in 0..nscripts {
                 g.start_script(&format!("script{k}"), &[]);
